@@ -2,6 +2,8 @@ package main
 
 import (
 	"fmt"
+	"os"
+	"runtime/debug"
 	"go/types"
 	"path"
 	"sort"
@@ -200,7 +202,7 @@ func (st *State) flatten(v SVal, t types.Type) []*Term {
 		case *Term:
 			return []*Term{fv}
 		}
-		st.unsupported("flatten: func value %T", v)
+		return []*Term{st.scalar(v)}
 	}
 	_ = e
 	return []*Term{st.scalar(v)}
@@ -217,12 +219,27 @@ func (st *State) scalar(v SVal) *Term {
 		if x.Kind == "box" && x.Path == "" {
 			return x.Base
 		}
+		// An interior pointer that has to become a first-class value (stored in the heap or passed to a
+		// contracted callee) is modelled as a pointer to a fresh cell holding a copy of the current
+		// contents. Sound as long as the cell is not written through either alias afterwards; every
+		// such site is listed in the evidence.
+		if x.Kind == "field" || x.Kind == "elem" {
+			st.e.note(st.u.name, "assumption", "interior pointer "+displayKey(x.Key)+"."+x.Path+" treated as pointer to an unmodified copy")
+			cur := st.load(st.heap, x)
+			r := st.allocRef()
+			st.store(st.ptrAddr(r, x.Type), cur)
+			return r
+		}
 		st.unsupported("interior pointer (%s %s %s) used as a value", x.Kind, x.Key, x.Path)
 	case *FuncV:
 		if x.Sym != nil {
 			return x.Sym
 		}
 		return st.funcSym(x)
+	case *EntH:
+		return IntLit(int64(5000000 + x.ID))
+	case *bulkV:
+		return IntLit(4999999)
 	case nil:
 		st.unsupported("nil SVal used as scalar")
 	}
@@ -327,6 +344,11 @@ type State struct {
 	events   []string
 	steps    int
 	dead     bool
+	freshRefs map[string]bool
+	shadow   map[string]SVal // engine-side values (handles, closures) stored in cells of objects allocated on this path
+	pendingBoxes []boxInit
+	batching int
+	pending  []*Obligation
 }
 
 func (st *State) clone() *State {
@@ -362,6 +384,16 @@ func (st *State) clone() *State {
 	}
 	n.trace = append([]string(nil), st.trace...)
 	n.events = append([]string(nil), st.events...)
+	n.freshRefs = make(map[string]bool, len(st.freshRefs))
+	for k := range st.freshRefs {
+		n.freshRefs[k] = true
+	}
+	n.shadow = make(map[string]SVal, len(st.shadow))
+	for k, v := range st.shadow {
+		n.shadow[k] = v
+	}
+	n.pendingBoxes = nil
+	n.pending = append([]*Obligation(nil), st.pending...)
 	n.ghostObj = make(map[string]any, len(st.ghostObj))
 	for k, v := range st.ghostObj {
 		if c, ok := v.(interface{ cloneObj() any }); ok {
@@ -376,6 +408,10 @@ func (st *State) clone() *State {
 type unsupportedErr struct{ msg string }
 
 func (st *State) unsupported(f string, a ...any) {
+	if os.Getenv("GOVC_DEBUG") != "" {
+		fmt.Fprintf(os.Stderr, "UNSUPPORTED: %s\n  path: %v\n", fmt.Sprintf(f, a...), st.trace)
+		debug.PrintStack()
+	}
 	panic(unsupportedErr{fmt.Sprintf(f, a...)})
 }
 
@@ -432,6 +468,10 @@ func (st *State) watermark() *Term { return Add(st.allocB, IntLit(int64(st.alloc
 func (st *State) allocRef() *Term {
 	r := st.define("ref", st.watermark())
 	st.allocOff++
+	if st.freshRefs == nil {
+		st.freshRefs = map[string]bool{}
+	}
+	st.freshRefs[r.S] = true
 	return r
 }
 
@@ -692,6 +732,12 @@ func (st *State) havoc(patterns []string, except []string) {
 			delete(st.heap.vers, k)
 		}
 	}
+	for k := range st.shadow {
+		key := k[:strings.LastIndex(k[:strings.Index(k, "@")], "|")]
+		if ev.matches(key) {
+			delete(st.shadow, k)
+		}
+	}
 }
 
 func (st *State) snapshot() *HeapView { return st.heap.clone() }
@@ -752,7 +798,33 @@ func (st *State) loadLeaf(h *HeapView, a *AddrV, leaf Leaf) *Term {
 	}
 }
 
+func shadowKey(a *AddrV) string {
+	k := a.Key + "|" + a.Path + "@"
+	if a.Base != nil {
+		k += a.Base.S
+	}
+	if a.Idx != nil {
+		k += "#" + a.Idx.S
+	}
+	return k
+}
+
+func isEngineVal(v SVal) bool {
+	switch x := v.(type) {
+	case *EntH, *bulkV:
+		return true
+	case *FuncV:
+		return x.Fn != nil
+	}
+	return false
+}
+
 func (st *State) load(h *HeapView, a *AddrV) SVal {
+	if h == st.heap {
+		if v, ok := st.shadow[shadowKey(a)]; ok {
+			return v
+		}
+	}
 	ls := st.e.leaves(a.Type)
 	ts := make([]*Term, 0, len(ls))
 	for _, l := range ls {
@@ -765,6 +837,26 @@ func (st *State) load(h *HeapView, a *AddrV) SVal {
 }
 
 func (st *State) store(a *AddrV, v SVal) {
+	// engine-side values keep their identity in the shadow memory; any other store to the same
+	// array drops shadow entries it might alias
+	sk := shadowKey(a)
+	prefix := a.Key + "|" + a.Path + "@"
+	for k := range st.shadow {
+		if strings.HasPrefix(k, prefix) && k != sk {
+			// distinct cells of objects allocated on this path never alias; a store through any other base may
+			if !(st.isFreshBase(a) && strings.HasPrefix(k, prefix)) {
+				delete(st.shadow, k)
+			}
+		}
+	}
+	if isEngineVal(v) || (st.isFreshBase(a) && v != nil) {
+		if st.shadow == nil {
+			st.shadow = map[string]SVal{}
+		}
+		st.shadow[sk] = v
+	} else {
+		delete(st.shadow, sk)
+	}
 	ls := st.e.leaves(a.Type)
 	if len(ls) == 0 {
 		return
@@ -793,6 +885,14 @@ func (st *State) store(a *AddrV, v SVal) {
 			st.heapSet(key, val)
 		}
 	}
+}
+
+// isFreshBase: the cell belongs to an object allocated on this path (its base is an allocation term).
+func (st *State) isFreshBase(a *AddrV) bool {
+	if a.Base == nil {
+		return false
+	}
+	return st.freshRefs[a.Base.S]
 }
 
 // ptrAddr converts a pointer value (to pointee type t) into an address.
